@@ -40,5 +40,7 @@ def seriesValues (S : List (Nat × Q)) : List Q := S.map (·.2)
 def zerosLike {α} (xs : List α) : List Q := xs.map (fun _ => 0)
 /-- `a[mask] = c` -/
 def maskAssign (xs : List Q) (m : List Bool) (c : Q) : List Q := List.zipWith (fun x b => if b then c else x) xs m
+/-- `s.mean()` -/
+def meanQ (xs : List Q) : Q := sumQs xs / (xs.length : Q)
 
 end LK.RankOps
